@@ -208,6 +208,22 @@ def tuple_cases(tier):
 
 
 # ---------------------------------------------------------------- (3) real runs
+def probe_case(case):
+    """same runs, but hooks and step functions READ feature/rule/scenario .status while the run is in progress
+    (the property is a cache): the final statuses must still be the roll-up of the children"""
+    prog, cfg, faults, cleanups, hooks = case
+    cfgd = runcases.CFGS[cfg] if isinstance(cfg, str) else cfg
+    obs = harness.run_case(prog, cfgd, faults=faults, cleanups=cleanups, hooks=True, probe_status=True)
+    ref = refrun.predict(prog, cfgd, faults=faults, cleanups=cleanups, hooks=True)
+    v = refrun.compare(prog, ref, obs, what=("status", "steps"))
+    v = [x for x in v if x[0]["subcheck"] in ("status", "run")]
+    for d, msg in v:
+        d["probe"] = "status-read-during-run"
+    interesting = tuple(sorted(set(obs["status"].values())))
+    return {"v": v, "nt": digest(case) if interesting != ("passed",) else None, "out": ("probe",) + interesting,
+            "dg": (sorted(obs["status"].items()), sorted(obs["steps"].items()))}
+
+
 def run_case(case):
     ref, obs = runcases.exec_case(case)
     v = refrun.compare(case[0], ref, obs, what=("status", "steps"))
@@ -362,5 +378,8 @@ def run(ctx):
               name="real runs: outcomes x configs")
     ctx.sweep(run_case, (c for c in runcases.fault_cases(ctx.tier) if small(c, 3)), chunk=48,
               name="real runs: hook/cleanup faults")
+    ctx.sweep(probe_case, (c for c in runcases.step_cases(ctx.tier) if P.size(c[0][0]) <= (3 if ctx.quick else 5)
+                           and c[1] in ("default", "stop", "tags_t")), chunk=48,
+              name="real runs with .status read from hooks and steps")
     ctx.sweep(retry_case, retry_cases(ctx.tier), chunk=16, name="auto-retry / re-run histories")
     ctx.guard(len(ctx.outcomes) > 30, "at least 30 distinct outcome classes")
